@@ -1110,7 +1110,69 @@ class C03(core.PropertyCheck):
                                               f"differently: {json.dumps(a, ensure_ascii=False)[:260]} vs {json.dumps(b, ensure_ascii=False)[:260]}"),
                                      "key": "spelling"})
                         return viol, {"qualified_vs_unqualified_spellings": n_}
-        return viol, {"qualified_vs_unqualified_spellings": n_}
+        viol2, cov2 = self.argument_with_option()
+        return viol + viol2, {"qualified_vs_unqualified_spellings": n_, **cov2}
+
+    def argument_with_option(self):
+        """A directive argument that runs over two lines keeps all its words when an option follows it: every word of the source
+        appears in the emitted directive, in order (character data is neither dropped nor reordered). One document per directive
+        of the spec that takes an argument, an option and a body."""
+        spec = specparser.Spec.get()
+        viol, n_ = [], 0
+        for key in sorted(spec.directive):
+            d = spec.directive[key]
+            if d.argument_type is None or not d.options or d.content_type != "block" or ":" in key:
+                continue
+            at = d.argument_type
+            if not (isinstance(at, specparser.DirectiveOption) or at == "string" or getattr(at, "type", None) == "string"
+                    or str(at) in ("PrimitiveType.string", "string")):
+                continue
+            opt, val = None, None
+            for o, ty in sorted(d.options.items()):
+                if str(ty) in ("PrimitiveType.string", "string") or ty == "string":
+                    opt, val = o, "optvalue"
+                    break
+                if str(ty) in ("PrimitiveType.flag", "flag"):
+                    opt, val = o, ""
+                    break
+            if opt is None:
+                continue
+            words = ["Alphaword", "bravoword", "charlieword", "deltaword"]
+            text = f".. {key}:: {words[0]} {words[1]}\n   {words[2]} *{words[3]}*\n   :{opt}: {val}\n\n   Bodyword.\n"
+            n_ += 1
+            try:
+                page, diags = rstimpl.parse(text, "test.txt")
+            except Exception as e:
+                viol.append({"case": {"kind": "argopt", "text": text}, "desc": f"argopt: parsing raised {type(e).__name__}: {e}"[:300], "key": "argopt:raised"})
+                break
+            seen = []
+
+            def walk(x):
+                if isinstance(x, dict):
+                    if x.get("type") == "text":
+                        seen.append(x.get("value", ""))
+                    for k_ in sorted(x, key=lambda k__: (k__ != "argument", k__)):   # source order: the argument comes first
+                        if k_ != "options":
+                            walk(x[k_])
+                elif isinstance(x, list):
+                    for v_ in x:
+                        walk(v_)
+            walk(page.ast.serialize())
+            flat = " ".join(seen)
+            pos, missing = 0, []
+            for w in words + ["Bodyword"]:
+                i = flat.find(w, pos)
+                if i < 0:
+                    missing.append(w)
+                else:
+                    pos = i
+            if missing and not diags:
+                viol.append({"case": {"kind": "argopt", "directive": key, "text": text},
+                             "desc": (f"argopt: the words {missing} of the argument of `{key}` (second line of the argument, an option follows) are nowhere in the "
+                                      f"emitted page and nothing is reported; text emitted: {flat!r}"),
+                             "key": "argopt"})
+                break
+        return viol, {"two_line_argument_followed_by_option": n_}
 
     def finding_key(self, case, impl, desc):
         if "|" in desc:
